@@ -38,9 +38,9 @@ fn cfg_for(tier: Tier) -> Cfg {
         Tier::Quick => Cfg {
             dup: true,
             deliver_return: false,
-            wall_cap_s: 30.0,
+            wall_cap_s: 60.0,
             state_cap: 60_000,
-            deadline: Some(now + std::time::Duration::from_secs_f64(budget(75.0))),
+            deadline: Some(now + std::time::Duration::from_secs_f64(budget(150.0))),
             ..Default::default()
         },
         Tier::Thorough => Cfg {
@@ -84,7 +84,10 @@ pub fn check(id: &str, tier: Tier) -> Result<Report, String> {
     let cfg = cfg_for(tier);
     let rep = match id {
         "C02" => {
-            let scripts = stream_map_err(tier);
+            // ERR first: the non-zero-code runs the contract is about must not depend on the time budget
+            let lvl = if tier == Tier::Quick { 0 } else { 1 };
+            let mut scripts = families::err_family(lvl);
+            scripts.extend(stream_map(tier));
             let res = run_e1("C02", &scripts, &cfg, &|s| monitor_for("C02", s).unwrap(), &["O"]);
             e1_report("C02", "outcome contract per ret_code class evaluated on every distinct run; non-trivial = runs with a non-zero code", &res, &cfg, BOUNDS)
         }
@@ -175,6 +178,8 @@ pub fn check(id: &str, tier: Tier) -> Result<Report, String> {
             let res = run_e1("C19", &scripts, &cfg, &|s| monitor_for("C19", s).unwrap(), &["O"]);
             e1_report("C19", "per run: requests only for calls addressed to the peer, new results attributed to the peer, next peers without self/duplicates, newly sent entries imply next peers; per quiescent state: all peers' data merged at an observer hold no sent-but-unexecuted entry; non-trivial = runs that newly mark >= 2 entries as sent", &res, &cfg, BOUNDS)
         }
+        "C25" => crate::e2::check_c25(tier),
+        "C26" => crate::e2::check_c26(tier),
         _ => return Err(format!("no check for {id}")),
     };
     let _ = json!(null);
@@ -182,7 +187,10 @@ pub fn check(id: &str, tier: Tier) -> Result<Report, String> {
     Ok(rep)
 }
 
-pub fn replay_other(_v: &serde_json::Value) -> i32 {
+pub fn replay_other(v: &serde_json::Value) -> i32 {
+    if v["engine"].as_str() == Some("e2") {
+        return crate::e2::replay(v);
+    }
     crate::host::elog("unknown replay engine");
     2
 }
